@@ -102,7 +102,7 @@ func toIfaces(l []string) []interface{} {
 // A registry call that never returns gives no answer at all: every concurrent scenario runs under a watchdog.
 // On expiry the goroutine dump is printed and the process exits with status 3; the orchestrator reports a
 // violation only if the dump shows a goroutine blocked inside the library.
-var hangTimeout = 120 * time.Second
+var hangTimeout = 300 * time.Second
 
 func waitOrHang(wg *sync.WaitGroup, scen string) {
 	done := make(chan struct{})
